@@ -46,6 +46,12 @@ def render(d, h):
     lines.append("def resetPanicGuards : List String := " + h.llist(L(x) for x in r.get("panic_guards") or []) + "\n")
     lines.append("/-- every write of a Runner field in package interp (non-test, non-hook files) -/")
     lines.append("def sites : List Site := [\n  " + ",\n  ".join(site(s) for s in c.get("sites") or []) + "]\n")
+    run = c.get("run") or {}
+    if not run.get("found"):
+        problems.append("C30: Runner.Run not found")
+    lines.append("/-- Runner.Run: every receiver-field write (with enclosing conditions) and every method called\n    on the receiver, on each call -/")
+    lines.append("def runWrites : List Write := [\n  " + ",\n  ".join(write(w) for w in run.get("writes") or []) + "]\n")
+    lines.append("def runCalls : List Call := " + h.llist(call(x) for x in run.get("calls") or []) + "\n")
     lines.append("end ShVerif.Gen.C30")
     h.put("C30", "\n".join(lines) + "\n")
     return problems
